@@ -97,22 +97,32 @@ def caret_problem(exc):
         if ci != col - 1:
             return f'caret at {ci + 1}, column {col}'
         return None
-    plen = 4 if shown.startswith('... ') and not line.startswith(shown) else 0
-    seg = shown[plen:]
-    has_suffix = seg.endswith(' ...') and not line.endswith(seg)
-    if has_suffix:
-        seg = seg[:-4]
-    if len(seg) > 120:
-        return f'elided segment has {len(seg)} characters'
-    # the shown segment must be line[k:k+len(seg)] for the k that puts the caret under column col
-    k = (col - 1) - (ci - plen)
-    if k < 0 or line[k:k + len(seg)] != seg:
-        return f'caret/elision do not map back: column {col}, caret index {ci}, prefix {plen}, shown {shown!r}'
-    # (whether the elision markers are shown when nothing is cut on that side is not pinned: at column 61 the
-    #  pinned tree prints "... " in front of an uncut line start; the caret still maps back correctly)
-    if not (0 <= ci - plen <= len(seg)):
-        return f'caret outside the shown segment: {ci} {plen} {len(seg)}'
-    return None
+    # the line text itself may begin with "... " or end in " ..." (token soup does that): try every reading of the markers and
+    # accept the message if one of them maps the caret back to the column
+    problems = []
+    for plen in ([4, 0] if shown.startswith('... ') else [0]):
+        for cut_suffix in ([True, False] if shown.endswith(' ...') else [False]):
+            seg = shown[plen:]
+            if cut_suffix:
+                seg = seg[:-4]
+            if len(seg) > 120:
+                problems.append(f'elided segment has {len(seg)} characters')
+                continue
+            # the shown segment must be line[k:k+len(seg)] for the k that puts the caret under column col
+            k = (col - 1) - (ci - plen)
+            if k < 0 or line[k:k + len(seg)] != seg:
+                problems.append(f'caret/elision do not map back: column {col}, caret index {ci}, prefix {plen}, shown {shown!r}')
+                continue
+            if plen == 0 and k != 0 or (not cut_suffix and k + len(seg) != len(line)):
+                problems.append(f'text cut without an elision marker: shown {shown!r}')
+                continue
+            # (whether the elision markers are shown when nothing is cut on that side is not pinned: at column 61 the
+            #  pinned tree prints "... " in front of an uncut line start; the caret still maps back correctly)
+            if not 0 <= ci - plen <= len(seg):
+                problems.append(f'caret outside the shown segment: {ci} {plen} {len(seg)}')
+                continue
+            return None
+    return problems[0] if problems else 'no reading of the elision markers'
 
 
 def position_problems(exc, text, start):
